@@ -41,8 +41,9 @@ _LOGGER = logging.getLogger(__name__)
 
 # One starred alternation over a sorted list: the order of the alternatives
 # cannot change what is matched, and the pattern does not depend on the
-# iteration order of a set (i.e. on the string hash seed).
-_END_PATTERN = r"(?:{})*$".format(
+# iteration order of a set (i.e. on the string hash seed). Blanks may stand
+# between and after the comment terminators ('MIT */ -->', 'MIT --> ').
+_END_PATTERN = r"(?:[ \t]|{})*$".format(
     "|".join(
         sorted(
             set(
